@@ -31,6 +31,19 @@ CHECKS = {
         'hash_bytes, murmur2_x86 and murmur2_x64 are proved against the callee contracts to pass (buffer, length, seed) through unchanged.',
    note=PROOF_NOTE + 'Unsigned multiplication is abstracted as an uninterpreted function (sound for the equality proved); x86 unaligned little-endian loads; std::hash<xbasic_fixed_string> not yet under contract (listed in evidence not_reached).',
    technique='CBMC code contracts with loop invariants and ghost reference code (DFCC) on mechanically lowered code', design='4 C14'),
+ 'C03': dict(
+   text='xdynamic_bitset_base for the owning bitset and for the view over caller memory, xdynamic_bitset (constructors, resize, push/pop_back, clear, assign, copy), the view constructor and xbitset_reference are lowered on every run '
+        'and every operation is proved against the abstract bit sequence (ghost bit index, so every bit) with inductive loop contracts for symbolic sizes up to 10^6 blocks: wf (block count, zero tail, exact-size fresh block array) is preserved, '
+        'set/reset/flip, <<= and >>= for every amount in size_t, &= |= ^=, all/any/none/count/==, operator[] / at() (throws exactly for i >= size()) and the size-changing operations realise std::vector<bool> semantics; '
+        'the frame is the block array only. Quick: 8-bit blocks; thorough: 8/16/32/64.',
+   note=PROOF_NOTE + 'std::vector/std::fill model is C with loop contracts discharged in place; views lowered with NDEBUG; preconditions as for std::vector<bool>; temporaries-returning operators and iterators not under this check (listed in evidence).',
+   technique='CBMC code contracts with loop invariants (DFCC) on mechanically lowered code; ghost index / ghost witness', design='4 C03'),
+ 'C08': dict(
+   text='The integer kernels of half (float/double->half, half->float/double, operator+ - * /, fma, sqrt, the six comparisons, classification, fabs/copysign/negation, hash) are lowered on every run and proved equal to '
+        'IEEE 754 binary16 spec functions (round-to-nearest-even with overflow to infinity and gradual underflow, exact integer arithmetic) over their FULL input domains by bit-precise SAT: e.g. operator+ over all 2^32 operand pairs in one query, '
+        'float->half over all 2^32 floats; signed zeros, subnormals, infinities and NaN cases included.',
+   note=PROOF_NOTE + 'Multiplication/division/fma use uninterpreted * / % with stated range axioms; quick tier proves fma on the special-value slice only (thorough: all 2^48 triples); F16C path by assumption; NaN payloads unspecified.',
+   technique='CBMC code contracts (DFCC) on mechanically lowered code; full-domain bit-precise SAT against IEEE spec functions', design='4 C08'),
 }
 NA = {
  'C05': 'variant lifetimes under exceptions, placement-new into a recursive union and visitation tables built from lambdas: no C++ exception/lifetime semantics in CBMC and no faithful mechanical lowering; a hand-written model would be a different technique (DESIGN.md 6)',
